@@ -147,6 +147,9 @@ func BFS(sys *System) *BFSResult {
 			}(fi, ni)
 		}
 		wg.Wait()
+		for _, ni := range frontier {
+			nodes[ni].w = nil // expanded: only parent/event are needed for paths
+		}
 		var next []int
 		for fi := range frontier {
 			if len(out[fi]) == 0 {
